@@ -23,6 +23,11 @@ class NS:
             raise AttributeError(name)
         return spec_value(object.__getattribute__(self, "_ip"), d[name])
 
+    def V(self, name):
+        """the local as a Val-sorted term, whatever its engine representation"""
+        ip = object.__getattribute__(self, "_ip")
+        return ip.c.to_val(object.__getattribute__(self, "_d")[name])
+
     def has(self, name):
         return name in object.__getattribute__(self, "_d")
 
